@@ -141,8 +141,14 @@ Proof.
     cbn [expand ev ref_eval]. rewrite (obj_sel r IHr n ms [] F). reflexivity.
   - (* [i] on an array *)
     cbn [expand ev ref_eval]. rewrite (arr_idx r IHr i es 0 []).
-    + rewrite pick0. destruct (i <? 0)%Z; [reflexivity|]. destruct (nth_error es (Z.to_nat i)); reflexivity.
-    + rewrite pick0. destruct (i <? 0)%Z; [exact I|]. destruct (nth_error es (Z.to_nat i)); [exact F|exact I].
+    + rewrite pick0. destruct (i <? 0)%Z; [reflexivity|]. cbn [orb].
+      destruct (Z.leb_spec (Z.of_nat (length es)) i) as [L|L].
+      * assert (E : nth_error es (Z.to_nat i) = None) by (apply nth_error_None; lia). rewrite E. reflexivity.
+      * destruct (nth_error es (Z.to_nat i)); reflexivity.
+    + rewrite pick0. destruct (i <? 0)%Z; [exact I|]. cbn [orb] in F.
+      destruct (Z.leb_spec (Z.of_nat (length es)) i) as [L|L].
+      * assert (E : nth_error es (Z.to_nat i) = None) by (apply nth_error_None; lia). rewrite E. exact I.
+      * destruct (nth_error es (Z.to_nat i)); [exact F|exact I].
   - (* [*] on an array *)
     cbn [expand ev ref_eval]. rewrite (arr_all r IHr es 0 [] F). reflexivity.
 Qed.
